@@ -6,7 +6,7 @@ in : {"sig":[{"name","kind":"posOnly|posOrKw|varPos|kwOnly|varKw","default"?:val
       "opts":{"action_type":str|null,"include_args":[str]|null,"include_result":bool},
       "meta":{"module","qualname"}, "body":{"raise":bool,"ret":val}}
      val = null | int | string
-out: {"wf","noCollision","noStructural","includeOK","agrees","decorate","bind","gca","direct","wrapper"} -/
+out: {"wf","noStructural","gcaAgrees","bindingAgrees","posOnlyRespected","decorate","bind","gca","direct","wrapper"} -/
 open Lean LC
 
 def parseVal (j : Json) : Except String Val :=
@@ -100,8 +100,8 @@ def runCase (j : Json) : Except String Json := do
     | .error _ => Json.null
     | .ok (p', k') => boundJ (bind sig p' k')
   pure <| Json.mkObj [
-    ("wf", toJson sig.WF), ("noCollision", toJson sig.noCollision), ("noStructural", toJson sig.noStructural),
-    ("includeOK", toJson (opts.includeOK sig)), ("gcaAgrees", toJson (getcallargsAgrees sig pos kw)),
+    ("wf", toJson sig.WF), ("noStructural", toJson sig.noStructural),
+    ("gcaAgrees", toJson (getcallargsAgrees sig pos kw)),
     ("bindingAgrees", toJson (bindingAgrees sig pos kw)), ("posOnlyRespected", toJson (posOnlyRespected sig kw)),
     ("decorate", match decorate sig opts with | .ok _ => "ok" | .error e => excJ e),
     ("bind", boundJ (bind sig pos kw)), ("gca", boundJ (getcallargs sig pos kw)),
